@@ -53,3 +53,54 @@ Theorem C10_code_pad : forall (l : list Z) (W : nat),
   1 <= W -> g_pad_missing_labels l (Z.of_nat W) = Ret (pad (-1)%Z W l).
 Proof. exact g_pad_missing_labels_eq. Qed.
 Print Assumptions C10_code_pad.
+
+(* ---- the SPLITTING OF A JOINT RESULT AS TRANSLATED (Gen/G_front_split.v; facts: Proofs/GenEquivGU.v): the master labels are split by the
+   stacked sizes, every part is padded for the master result's window size and checked against ITS OWN series' length, in order,
+   and every other field of the joint result is the master result's field unchanged ---- *)
+From Ticc Require Import Gen.PySkel Gen.G_front_split Proofs.GenEquivGU.
+Section SkelGU10.
+  Local Open Scope string_scope.
+  Variable V : Type.
+  Variable vnone : V.
+  Variable vint : Z -> V.
+  Variable as_int : V -> option Z.
+  Variable veq : V -> V -> bool.
+  Variable getattr : V -> string -> V.
+  Variable truthy : V -> bool.
+  Variable is_none : V -> bool.
+  Variables vtrue vfalse : V.
+  Variable as_list : V -> list V.
+  Variable vglobal : string -> V.
+  Variable oracle : list (event V) -> string -> list V -> res V.
+  Let split_iter := GenEquivGU.split_iter V vint veq getattr oracle.
+  Theorem C10_code_split_result (master_result stacked_data_sizes data_series r : V) (log log' : list (event V)) :
+    g_split_combined_result V vint veq getattr as_list oracle master_result stacked_data_sizes data_series log = (Ret r, log') ->
+    exists parts acc en evs,
+      let pre := (log ++ [Ev f_split [getattr master_result "point_labels"; stacked_data_sizes];
+                          Ev "expr:[]" [];
+                          Ev "enumerate" [parts]])%list in
+      let ctor_args := [getattr master_result "bayesian_information_criterion";
+                        getattr master_result "calinski_harabasz_index";
+                        getattr master_result "label_assignment_cost";
+                        acc;
+                        getattr master_result "markov_random_fields";
+                        getattr master_result "num_clusters";
+                        getattr master_result "window_size";
+                        getattr master_result "all_log_likelihood";
+                        getattr master_result "overall_log_likelihood";
+                        getattr master_result "overall_log_likelihood_mean";
+                        getattr master_result "overall_log_likelihood_median";
+                        getattr master_result "cluster_log_likelihood_mean";
+                        getattr master_result "cluster_log_likelihood_median"] in
+      log' = (pre ++ evs ++ [Ev f_multi ctor_args])%list /\
+      length evs = (5 * length (as_list en))%nat /\
+      (forall k, (k < length (as_list en))%nat ->
+         split_iter master_result acc data_series pre evs k (nth k (as_list en) vnone)) /\
+      oracle log f_split [getattr master_result "point_labels"; stacked_data_sizes] = Ret parts /\
+      oracle (log ++ [Ev f_split [getattr master_result "point_labels"; stacked_data_sizes]]) "expr:[]" [] = Ret acc /\
+      oracle (log ++ [Ev f_split [getattr master_result "point_labels"; stacked_data_sizes]; Ev "expr:[]" []])
+             "enumerate" [parts] = Ret en /\
+      oracle (pre ++ evs) f_multi ctor_args = Ret r.
+  Proof. intros; eapply split_returns; eassumption. Qed.
+End SkelGU10.
+Print Assumptions C10_code_split_result.
